@@ -418,7 +418,8 @@ Definition link_ok (s : state) (x : nat) : Prop :=
   /\ (forall u g, In x (gget s u g) ->
         pmux s x = Some u /\ memb x (usigs s u) = true /\ exists gs, groups_of s u x = Some gs /\ In g gs)
   /\ (forall u gs, pmux s x = Some u -> groups_of s u x = Some gs -> NoDup gs)
-  /\ (~ attached s x -> pmux s x = None /\ pmsg s x = None).
+  /\ (~ attached s x -> pmux s x = None /\ pmsg s x = None)
+  /\ (forall u gs, pmux s x = Some u -> groups_of s u x = Some gs -> forall g, In g gs -> In x (gget s u g)).
 
 (* every signal behind x in a group holding x is held by that group only (excludes D35) *)
 Definition single_followers (s : state) (x : nat) : Prop :=
@@ -1473,7 +1474,8 @@ Section Resize.
   Lemma mixed_step : forall p done g,
     Mixed p done -> ~ In g done ->
     let '(e, p') := if 0 <? a then do_grow (sz s) p gsz (gget s u g) x a else do_shrink (sz s) p (gget s u g) x (- a) in
-    (e = None -> Mixed p' (g :: done)) /\ (e <> None -> 0 < a).
+    (e = None -> Mixed p' (g :: done)) /\ (e <> None -> 0 < a)
+    /\ (0 < a -> verify_grow (sz s) p0 gsz (gget s u g) x a = None -> e = None).
   Proof.
     intros p done g (M1 & M2 & M3) Hnd.
     (* the group not yet visited still has the positions it had before the change *)
@@ -1482,6 +1484,11 @@ Section Resize.
       destruct (M3 t NE) as [g1 [Hd1 Hm1]]. pose proof (mover_only g1 t Hm1 (LG u g) Ht) as E. inversion E; subst. contradiction. }
     assert (Hmv : moved_in (sz s) p (gget s u g) x a = mvg g).
     { unfold mvg. apply moved_in_ext. intros t Ht. split; [apply Hpg; exact Ht|reflexivity]. }
+    (* so the space check of this group gives what it gave before the change *)
+    assert (Hver : 0 < a -> verify_grow (sz s) p0 gsz (gget s u g) x a = None ->
+                   fst (do_grow (sz s) p gsz (gget s u g) x a) = None).
+    { intros _ Hv. apply do_grow_ok_iff; [exact Ha|]. rewrite <- Hv. apply verify_grow_ext.
+      intros t Ht. split; [apply Hpg; exact Ht|reflexivity]. }
     assert (M3' : forall p', (forall y, ~ In y (mvg g) -> p' y = p y) -> forall y, p' y <> p0 y -> exists g', In g' (g :: done) /\ In y (mvg g')).
     { intros p' Hfr y Hy. destruct (in_dec Nat.eq_dec y (mvg g)) as [Hyf|Hyn]; [exists g; split; [left; reflexivity|exact Hyf]|].
       rewrite (Hfr y Hyn) in Hy. destruct (M3 y Hy) as [g' [Hd Hm]]. exists g'. split; [right; exact Hd|exact Hm]. }
@@ -1506,7 +1513,8 @@ Section Resize.
         destruct (do_grow (sz s) p gsz (gget s u g) x a) as [e p'] eqn:E.
         assert (Ee : e = fst (do_grow (sz s) p gsz (gget s u g) x a)) by (rewrite E; reflexivity).
         assert (Ep : p' = snd (do_grow (sz s) p gsz (gget s u g) x a)) by (rewrite E; reflexivity).
-        split; [|intros _; exact Hpos]. intros ->. symmetry in Ee. apply do_grow_ok_iff in Ee; [|exact Ha].
+        split; [|split; [intros _; exact Hpos|intros Hp Hv; exact (Hver Hp Hv)]].
+        intros ->. symmetry in Ee. apply do_grow_ok_iff in Ee; [|exact Ha].
         assert (Hokg : ok p (sz s) 0 gsz (gget s u g)).
         { eapply ok_ext; [|exact HokG]. intros t Ht. split; [reflexivity|]. symmetry. apply (Hagree Hpos (LG u g) Hin t Ht). }
         apply Hframe_ok.
@@ -1515,7 +1523,7 @@ Section Resize.
       + (* shrink *)
         assert (Hlt : a < 0) by lia. specialize (Hshrink Hlt).
         unfold do_shrink. destruct (Z.eqb_spec (- a) 0); [lia|]. rewrite Hshrink.
-        split; [|intros C; congruence]. intros _.
+        split; [|split; [intros C; congruence|intros C; lia]]. intros _.
         apply Hframe_ok.
         * intros y Hy. apply (shrink_frame_moved p (sz s)); [exact Hlt|]. rewrite Hmv. exact Hy.
         * apply (shrink_len' Hlt (gget s u g) 0 gsz p HokG Hin).
@@ -1532,10 +1540,11 @@ Section Resize.
           rewrite Ep. unfold do_grow. destruct (a =? 0); [reflexivity|].
           destruct (verify_grow (sz s) p gsz (gget s u g) x a); [reflexivity|].
           apply followers_None in Hn. rewrite Hn. reflexivity. }
-        subst p'. split; [intros _; exact Hsame|intros _; exact Hpos].
+        assert (Ee : e = fst (do_grow (sz s) p gsz (gget s u g) x a)) by (rewrite E; reflexivity).
+        subst p'. split; [intros _; exact Hsame|split; [intros _; exact Hpos|intros Hp Hv; exact (Hver Hp Hv)]].
       + assert (Hlt : a < 0) by lia. specialize (Hshrink Hlt).
         unfold do_shrink. destruct (Z.eqb_spec (- a) 0); [lia|]. rewrite Hshrink.
-        split; [|intros C; congruence]. intros _.
+        split; [|split; [intros C; congruence|intros C; lia]]. intros _.
         assert (E : forall y, shrink_loop p (gget s u g) x (- a) false y = p y).
         { intros y. apply shrink_loop_false_frame. intros fs Hfs. apply followers_None in Hn. congruence. }
         destruct Hsame as (S1 & S2 & S3). split; [|split].
@@ -1547,21 +1556,25 @@ Section Resize.
   Lemma mixed_loop : forall gs p done,
     Mixed p done -> NoDup gs -> (forall g, In g gs -> ~ In g done) ->
     let '(p', e) := mg_pos (sz s) gsz (gget s u) x a gs p in
-    (e = None -> Mixed p' (rev gs ++ done)) /\ (e <> None -> 0 < a /\ exists done', Mixed p' done').
+    (e = None -> Mixed p' (rev gs ++ done)) /\ (e <> None -> 0 < a /\ exists done', Mixed p' done')
+    /\ (0 < a -> (forall g, In g gs -> verify_grow (sz s) p0 gsz (gget s u g) x a = None) -> e = None).
   Proof.
     induction gs as [|g r IH]; intros p done HM Hnd Hdis; cbn [mg_pos].
-    - split; [intros _; exact HM|intros C; congruence].
+    - split; [intros _; exact HM|split; [intros C; congruence|intros _ _; reflexivity]].
     - inversion Hnd as [|? ? Hng Hnd']; subst.
       pose proof (mixed_step p done g HM (Hdis g (or_introl eq_refl))) as St.
       destruct (if 0 <? a then do_grow (sz s) p gsz (gget s u g) x a else do_shrink (sz s) p (gget s u g) x (- a)) as [e p1].
-      destruct St as [St1 St2]. destruct e as [c|].
-      + split; [discriminate|]. intros _. split; [apply St2; discriminate|exists done; exact HM].
+      destruct St as [St1 [St2 St3]]. destruct e as [c|].
+      + split; [discriminate|]. split.
+        * intros _. split; [apply St2; discriminate|exists done; exact HM].
+        * intros Hpos Hall. specialize (St3 Hpos (Hall g (or_introl eq_refl))). discriminate.
       + specialize (St1 eq_refl).
         assert (Hdis' : forall g', In g' r -> ~ In g' (g :: done)).
         { intros g' Hg' [<-|Hd]; [contradiction|]. apply (Hdis g' (or_intror Hg')). exact Hd. }
         pose proof (IH p1 (g :: done) St1 Hnd' Hdis') as R.
         destruct (mg_pos (sz s) gsz (gget s u) x a r p1) as [p' e].
-        cbn [rev]. rewrite <- app_assoc. cbn [app]. exact R.
+        cbn [rev]. rewrite <- app_assoc. cbn [app]. destruct R as [R1 [R2 R3]].
+        split; [exact R1|split; [exact R2|]]. intros Hpos Hall. apply (R3 Hpos). intros g' Hg'. apply Hall. right; exact Hg'.
   Qed.
 
   Lemma classic_mixed : forall L done,
@@ -1633,7 +1646,7 @@ Proof.
   pose proof (mixed_loop s x a p0 lenG H HlenX Hagree Hnew u Ha Hsingle Hshrink gs p0 []
                 (mixed_init s x a p0 lenG Hcur u) (Hnd _ eq_refl) (fun g _ Hin => Hin)) as R.
   destruct (mg_pos (sz s) (mux_gsize s u) (gget s u) x a gs p0) as [p' e]. cbn [fst snd].
-  destruct R as [R1 R2].
+  destruct R as [R1 [R2 R3]].
   replace (set_rel (set_rel s p0) p') with (set_rel s p') by reflexivity.
   split.
   - exists p'. split; [reflexivity|]. split; [|split].
@@ -1663,7 +1676,7 @@ Lemma sig_modify_post : forall s x a p0 lenG, InvA s -> ok_all s p0 lenG ->
   modify_post s x a p0 lenG (fst (sig_modify_size (set_rel s p0) x a)) (snd (sig_modify_size (set_rel s p0) x a))
   /\ (a < 0 -> snd (sig_modify_size (set_rel s p0) x a) = VOk).
 Proof.
-  intros s x a p0 lenG H Hcur HlenX Hagree Hnew (Ltop & Lgrp & Lnd & Lfree) Hsingle. unfold sig_modify_size.
+  intros s x a p0 lenG H Hcur HlenX Hagree Hnew (Ltop & Lgrp & Lnd & Lfree & _) Hsingle. unfold sig_modify_size.
   change (pmux (set_rel s p0) x) with (pmux s x). change (pmsg (set_rel s p0) x) with (pmsg s x).
   destruct (pmux s x) as [u|] eqn:Epu.
   - destruct (mux_modify_post s x a p0 lenG u H Hcur HlenX Hagree Hnew Hsingle) as [A B].
